@@ -179,7 +179,12 @@ def per_player_sums(ctx, rule):
         if 'solve_external_multi' not in f.name:
             continue
         for bi, t, e in q.calls_named(f, 'single_player_iter'):
-            it_arg = strip_refs(e[2][5])
+            # the u64 argument (by type: the parameter list may have been reshaped)
+            u64s = [k_ for k_, a_ in enumerate(t['args']) if (a_['pl']['ty'] if a_.get('o') in ('copy', 'move') else a_.get('c', {}).get('ty', '')) == 'u64']
+            if len(u64s) != 1:
+                ctx.anchor_lost(rule, 'solve_external_multi: the iteration index handed to single_player_iter', 'u64 arguments: %d' % len(u64s))
+                continue
+            it_arg = strip_refs(e[2][u64s[0]])
             ok = it_arg == L.it[1] or norm(it_arg) == norm(L.it[1])
             cargs = [a for a in t['callee'].get('args', []) if a in ('true', 'false')]
             ctx.verdict(ok, rule, '%s:%s:pass-%s' % (rule, q.top(f.name), cargs[0] if cargs else '?'), 'each pass is given the loop\'s own iteration index', f.where(bi), 'it argument %s' % facts.show(it_arg)[:40])
@@ -245,6 +250,8 @@ def run(ctx):
                     return from_solver(v[1], depth + 1, {v[2]})
                 if v[0] in ('field', 'cidx'):
                     return from_solver(v[1], depth + 1, only)
+                if v[0] == 'call' and short(v[1]) == 'map' and 'array' in v[1]:
+                    return False        # `[r1, r2].map(|r| ..)`: the bounds are recomputed element by element, not passed on
                 if v[0] == 'call' and short(v[1]) in WRAP and v[2]:
                     return from_solver(v[2][0], depth + 1)
                 if v[0] == 'agg' and v[2] and (v[1] == 'tuple' or v[1].startswith('adt:')):
